@@ -1,6 +1,8 @@
 (* C18 — property theorems only. Each is closed by `exact <lemma>` and followed by Print Assumptions. *)
 From Coq Require Import ZArith Reals List Bool.
 From GeosV.C18 Require Import DPDefs DPProofs DPMetric DPTheorems CheckDefs CheckProofs.
+From GeosV.C18 Require Import GenPreludeDP DPGen.
+From GeosV.Gen Require Import DP_simplifySection.
 Import ListNotations.
 
 (* ---- the distance of the model: dist2_pt_seg p a b (an exact rational) is the minimum squared distance from p to the points
@@ -173,3 +175,118 @@ Proof. vm_compute. split; reflexivity. Qed.
 Example ex_cov_rejects_lost_node : check_cov false (tol2 100 1) ex_cov_in
   [[[[(0, 0); (10, 10); (0, 10); (0, 0)]]]; [[[(10, 0); (20, 0); (20, 10); (10, 10); (10, 0)]]]] = false.
 Proof. vm_compute. reflexivity. Qed.
+
+(* ================================================================================================================
+   Tie G: theorems about g_simplifySection_fuel, the definition REGENERATED from
+   DouglasPeuckerLineSimplifier::simplifySection (src/simplify/DouglasPeuckerLineSimplifier.cpp) on every run
+   (Gen/DP_simplifySection.v; meaning of the abstract names: C18/GenPreludeDP.v).
+   gen_usePt / gen_indices / gen_points: usePt = vector<bool>(n, true); simplifySection(0, n - 1); collect pts[i] with usePt[i]. *)
+
+(* ---- for every state, section i < j and fuel >= j - i the generated function leaves pts and distanceTolerance alone and
+   clears exactly the marks of the interior indices that the hand model's `kept` does not keep *)
+Theorem C18_gen_section_marks : forall fuel st i j, (i < j)%nat -> (j - i <= fuel)%nat ->
+  let st' := g_simplifySection_fuel fuel st (Z.of_nat i) (Z.of_nat j) in
+  f_pts st' = f_pts st /\ f_distanceTolerance st' = f_distanceTolerance st /\
+  length (f_usePt st') = length (f_usePt st) /\
+  forall k, nth k (f_usePt st') false = true <->
+            (nth k (f_usePt st) false = true /\ ((i < k < j)%nat -> In k (kept (f_distanceTolerance st) (f_pts st) fuel i j))).
+Proof. exact gen_section_spec. Qed.
+Print Assumptions C18_gen_section_marks.
+
+(* ---- termination: the recursion depth never exceeds j - i (with that much fuel the out-of-fuel branch is not reached:
+   any larger fuel gives the same state) *)
+Theorem C18_gen_fuel_bound : forall fuel st i j, (i < j)%nat -> (j - i <= fuel)%nat ->
+  g_simplifySection_fuel fuel st (Z.of_nat i) (Z.of_nat j) = g_simplifySection_fuel (j - i) st (Z.of_nat i) (Z.of_nat j).
+Proof. exact gen_fuel_bound. Qed.
+Print Assumptions C18_gen_fuel_bound.
+
+(* ... the bound needs i < j: on a section with i = j (a one-point sequence) and a tolerance below the sentinel -1.0 every
+   unfolding calls the same section again (reachable only through the internal class with a negative tolerance;
+   DouglasPeuckerSimplifier / the C API reject negative tolerances) *)
+Theorem C18_gen_degenerate_section_no_progress : forall f st i, rle (-1, 1)%Z (f_distanceTolerance st) = false ->
+  g_simplifySection_fuel (S f) st (Z.of_nat i) (Z.of_nat i) =
+  g_simplifySection_fuel f (g_simplifySection_fuel f st (Z.of_nat i) (Z.of_nat i)) (Z.of_nat i) (Z.of_nat i).
+Proof. exact gen_degenerate_section_no_progress. Qed.
+Print Assumptions C18_gen_degenerate_section_no_progress.
+
+(* ---- the marks after simplifySection(0, n - 1), and the vertices collected from them, are the hand model's *)
+Theorem C18_gen_usePt_marks : forall T2 pts, (2 <= length pts)%nat ->
+  length (gen_usePt T2 pts) = length pts /\
+  forall k, (k < length pts)%nat -> (nth k (gen_usePt T2 pts) false = true <-> In k (dp_indices T2 pts)).
+Proof. exact gen_usePt_marks. Qed.
+Print Assumptions C18_gen_usePt_marks.
+
+Theorem C18_gen_indices_eq : forall T2 pts, (2 <= length pts)%nat -> gen_indices T2 pts = dp_indices T2 pts.
+Proof. exact gen_indices_eq. Qed.
+Print Assumptions C18_gen_indices_eq.
+
+Theorem C18_gen_usePt_any_fuel : forall T2 pts fuel, (2 <= length pts)%nat -> (length pts - 1 <= fuel)%nat ->
+  f_usePt (g_simplifySection_fuel fuel (gen_state0 T2 pts) 0 (Z.of_nat (length pts - 1))) = gen_usePt T2 pts.
+Proof. exact gen_usePt_any_fuel. Qed.
+Print Assumptions C18_gen_usePt_any_fuel.
+
+(* ---- the property facts, stated about the generated definition *)
+Theorem C18_gen_subsequence : forall T2 pts, (2 <= length pts)%nat ->
+  subseq (gen_points T2 pts) pts /\
+  hd (0, 0)%Z (gen_points T2 pts) = hd (0, 0)%Z pts /\ last (gen_points T2 pts) (0, 0)%Z = last pts (0, 0)%Z.
+Proof. exact gen_subsequence. Qed.
+Print Assumptions C18_gen_subsequence.
+
+Theorem C18_gen_within_tol : forall T2 pts, rok T2 -> (2 <= length pts)%nat -> forall k, (k < length pts)%nat ->
+  In k (gen_indices T2 pts) \/ covered T2 pts (gen_indices T2 pts) k.
+Proof. exact gen_within_tol. Qed.
+Print Assumptions C18_gen_within_tol.
+
+Theorem C18_gen_within_tol_R : forall T2 pts, rok T2 -> (0 <= fst T2)%Z -> (2 <= length pts)%nat ->
+  forall v, In v pts -> near_line (rval T2) v (gen_points T2 pts).
+Proof. exact gen_within_tol_R. Qed.
+Print Assumptions C18_gen_within_tol_R.
+
+(* tolerance 0: what the generated code drops lies at squared distance exactly 0 from the chord of its neighbours in the
+   output, and such vertices ARE dropped (the shape of finding F6; this is what the code does) *)
+Theorem C18_gen_zero_tol_dropped_on_chord : forall pts, (2 <= length pts)%nat -> forall k, (k < length pts)%nat ->
+  In k (gen_indices T0 pts) \/
+  exists a b, adjacent a b (gen_indices T0 pts) /\ (a < k < b)%nat /\ fst (dist2_pt_seg (P pts k) (P pts a) (P pts b)) = 0%Z.
+Proof. exact gen_zero_tol_dropped_on_chord. Qed.
+Print Assumptions C18_gen_zero_tol_dropped_on_chord.
+
+Theorem C18_gen_zero_tol_refuted : ~ (forall pts, gen_points T0 pts = pts).
+Proof. exact gen_zero_tol_refuted. Qed.
+Print Assumptions C18_gen_zero_tol_refuted.
+
+(* ---- simplify(): the generated section followed by the hand-modelled closed-ring origin step (DPDefs.ring_step) *)
+Theorem C18_gen_simplify_eq : forall T2 pts b, (2 <= length pts)%nat -> gen_simplify T2 pts b = dp_simplify T2 pts b.
+Proof. exact gen_simplify_eq. Qed.
+Print Assumptions C18_gen_simplify_eq.
+
+Theorem C18_gen_ring_2tol : forall T2 pts, rok T2 -> (0 <= fst T2)%Z -> is_ring pts = true ->
+  forall v, In v pts -> near_line (4 * rval T2) v (gen_simplify T2 pts false).
+Proof. exact gen_ring_2tol. Qed.
+Print Assumptions C18_gen_ring_2tol.
+
+(* ---- non-vacuity: runs of the generated definition *)
+Example ex_gen_runs : gen_points (tol2 2 1) ex_line = [(0, 0); (15, 3); (25, -7); (30, 0)].
+Proof. vm_compute. reflexivity. Qed.
+Example ex_gen_marks : gen_usePt (tol2 2 1) ex_line = [true; false; false; true; false; true; true].
+Proof. vm_compute. reflexivity. Qed.
+Example ex_gen_section_partial :    (* a section in the middle of a line, marks outside it untouched *)
+  f_usePt (g_simplifySection_fuel 3 (mkDP ex_line [true; false; true; true; true; true; true] (tol2 2 1)) 3 6) =
+  [true; false; true; true; false; true; true].
+Proof. vm_compute. reflexivity. Qed.
+Example ex_gen_fuel_bound : g_simplifySection_fuel 40 (gen_state0 (tol2 2 1) ex_line) 0 6 = g_simplifySection_fuel 6 (gen_state0 (tol2 2 1) ex_line) 0 6.
+Proof. vm_compute. reflexivity. Qed.
+Example ex_gen_out_of_fuel_differs : f_usePt (g_simplifySection_fuel 1 (gen_state0 (tol2 2 1) ex_line) 0 6) <> gen_usePt (tol2 2 1) ex_line.
+Proof. vm_compute. discriminate. Qed.
+Example ex_gen_degenerate_hyp : rle (-1, 1)%Z (f_distanceTolerance (gen_state0 (-4, 1)%Z [(0, 0)%Z])) = false.
+Proof. vm_compute. reflexivity. Qed.
+Example ex_gen_within : covered (tol2 2 1) ex_line (gen_indices (tol2 2 1) ex_line) 1.
+Proof. exists 0%nat, 3%nat. split; [exists [], [5; 6]%nat; reflexivity|]. split; [split; auto with arith | vm_compute; reflexivity]. Qed.
+Example ex_gen_zero_tol_drops_collinear : gen_points T0 [(0, 0); (1, 0); (2, 0)] = [(0, 0); (2, 0)].
+Proof. vm_compute. reflexivity. Qed.
+Example ex_gen_zero_tol_keeps : gen_points T0 [(0, 0); (1, 1); (2, 0)] = [(0, 0); (1, 1); (2, 0)].
+Proof. vm_compute. reflexivity. Qed.
+Example ex_gen_ring_origin_removed : gen_simplify (tol2 3 2) ex_ring false = [(10, 5); (12, 0); (10, -5); (10, 5)].
+Proof. vm_compute. reflexivity. Qed.
+Example ex_gen_first_of_equal_maxima : gen_points (tol2 1 1) [(0, 0); (3, 2); (6, -2); (10, 0)] = [(0, 0); (3, 2); (6, -2); (10, 0)]
+  /\ gen_points (tol2 2 1) [(0, 0); (3, 2); (6, -2); (10, 0)] = [(0, 0); (10, 0)].
+Proof. vm_compute. split; reflexivity. Qed.
